@@ -40,6 +40,36 @@ def rule_placeholder_normalisation(ctx: Ctx):
         okg = guard is not None and "_+" in norm(guard.test) and "page" in norm(guard.test)
         ctx.ob("R-C16-4", f"models.{c}.__post_init__/underscore-test", okg,
                "the normalisation is guarded by the all-underscores test on the page group", node=guard or n, mod=m, nontrivial=False)
+    # R-C16-8 writer/reader agreement on what a placeholder page is.  The page pattern (writer) says which strings can be a page; __post_init__
+    # (reader) turns the placeholder ones into None so that they hash by identity.  Every alternative of the page pattern that contains no
+    # alphanumeric character at all is a placeholder spelling, and each character it can consist of must be accepted by the reader's test.
+    from .. import materialize, rx
+    import re as _re
+    pg = materialize.load(repo.root)["regex_constants"].get("PAGE_NUMBER_REGEX")
+    for c, fn, n in sites:
+        guard = n.parent if isinstance(n.parent, ast.If) else None
+        pats = [x.value for x in ast.walk(guard.test) if isinstance(x, ast.Constant) and isinstance(x.value, str) and x.value not in ("page", "")] if guard is not None else []
+        if pg is None or not pats:
+            ctx.ob("R-C16-8", f"models.{c}.__post_init__/placeholder-spellings", False, "page pattern or placeholder test not found", node=guard or n, mod=m)
+            continue
+        accepted = set()
+        for p_ in pats:
+            try:
+                accepted |= rx.alphabet(p_)
+            except Exception:  # noqa: BLE001
+                pass
+        loose = []
+        n_ph = 0
+        for b in rx.top_branches(pg):
+            a = rx.tree_alphabet(b)
+            if a and not any(ch.isalnum() for ch in a):
+                n_ph += 1
+                if not a <= accepted:
+                    loose.append(sorted(a - accepted))
+        ctx.ob("R-C16-8", f"models.{c}.__post_init__/placeholder-spellings", not loose and n_ph >= 1,
+               f"{n_ph} alternative(s) of PAGE_NUMBER_REGEX consist of non-alphanumeric characters only (placeholder pages); the normalisation test {pats} accepts "
+               f"{sorted(accepted)}; characters of a placeholder spelling it does not accept: {loose} -- such a page keeps its text, so two different slip "
+               "opinions 'N U.S. ----' are equal, hash equal and resolve to one resource", node=guard, mod=m)
     for c in citation_classes(repo):
         fn = repo.classes[c].methods.get("__post_init__")
         if fn is None or c == "CitationBase":
@@ -188,6 +218,23 @@ def rule_edition_table(ctx: Ctx):
         s0 = bad[0]
         detail = (f"; e.g. {s0!r}: generated variation candidates {sorted(map(str, gv[s0]))} vs database {sorted(map(str, var[s0]))}, exact "
                   f"{sorted(map(str, ge[s0]))} vs {sorted(map(str, exact[s0]))}")
+    # ... and as often: guess_edition() counts candidates, so an edition listed twice by one extractor (two templates that expand to the same
+    # pattern) is "ambiguous" and its citations stop being equal to the canonical spelling's
+    dbc_e, dbc_v = collections.defaultdict(collections.Counter), collections.defaultdict(collections.Counter)
+    for s_, kind, ed, st, en, _src in dbmap:
+        (dbc_e if kind == "edition" else dbc_v)[s_][(ed, st, en)] += 1
+    dup = []
+    for e in data["extractors"]:
+        if not e["ctor"].startswith("CitationToken") or not e["strings"]:
+            continue
+        for kind, db in (("exact", dbc_e), ("variation", dbc_v)):
+            g = collections.Counter((x[0], x[3], x[4]) for x in e[kind] if x[1] == "reporters")
+            for k_, c_ in g.items():
+                if c_ > max(db[s_][k_] for s_ in e["strings"]):
+                    dup.append((e["strings"][0], kind, k_[0], c_))
+    ctx.ob("R-C16-7", "extractors/no-edition-listed-more-often-than-in-reporters-db", not dup,
+           f"no extractor carries an edition more often than reporters-db has (reporter, edition) rows for its spelling; {len(dup)} do{': ' + str(dup[:3]) if dup else ''}",
+           node=None, mod=tm)
     ctx.ob("R-C16-7", "extractors/candidate-editions-agree-with-reporters-db", not bad and len(keys) > 3000 and n_ext > 4000,
            f"for each of the {len(keys)} reporter spellings, the exact-name and variation candidate editions of the extractors that carry it are exactly the "
            f"editions reporters-db gives for that spelling ({len(bad)} spellings disagree{detail})", node=None, mod=tm)
